@@ -29,7 +29,10 @@ RULE = (
     "(apply_transform per matrix class, apply_scale, apply_translation, rezero, apply_obb, "
     "convert_units, invert, update_faces/update_vertices per mask class, merge/unmerge vertices, "
     "remove_*, process, fix_normals, fill_holes, density/center_mass setters, face_normals setter, "
-    "in-place edits by tracked numpy routes, reassignment, copies) x read-sets (none, each single "
+    "in-place edits by tracked numpy routes, by numpy routes that bypass the tracked array's methods, "
+    "through views taken before a read, through arrays the mesh shares with a caller or another mesh; "
+    "reassignment, copies (edit either side, observe the other), in-place edits of the objects that "
+    "library calls and reads hand out) x read-sets (none, each single "
     "value, all, random subsets). distinct = (mesh class, read-set, mutator sequence); non-trivial = "
     "the mutator ran on a non-empty cache or a post-mutation read was a cache hit."
 )
@@ -182,6 +185,7 @@ def _extra_reads(m, scale):
     out["q_faces_sparse"] = lambda: np.asarray(m.faces_sparse.todense())
     out["q_vag"] = lambda: sorted(tuple(sorted(map(int, e))) for e in m.vertex_adjacency_graph.edges())
     out["q_hull_volume"] = lambda: float(m.convex_hull.volume)
+    out["q_hull_bounds"] = lambda: np.asarray(m.convex_hull.bounds)
     out["q_bbox"] = lambda: np.asarray(m.bounding_box.bounds)
     # building this table must not read anything from the mesh (a read verifies the cache and
     # would heal exactly the stale state the histories are trying to produce), so whether the
@@ -315,6 +319,19 @@ def fresh_of(m):
 # so they are judged in the well-scaled regime only
 SCALE_GATED = ("q_ray_default", "q_ray_any", "q_ray_first", "q_contains", "q_signed_distance",
                "q_ray_native", "q_on_surface_distance", "q_on_surface_point")
+# mutator classes whose defect (if any) is "the edit is not noticed at all": see Monitor.compare
+HASH_FIRST = ("inplace:bypass:", "inplace:view:", "alias:", "observer+edit_result:")
+# mutator classes that are self-contained or only mean something on a warm cache: the empty
+# read-set of section (1) is skipped for them
+NEEDS_READS = HASH_FIRST + ("copy.copy+mutate_original_observe_copy:",)
+# steps that are never silent: an edit that goes unnoticed (or a cached object moved behind the
+# mesh's back) poisons everything that follows, and what a later step would show is the fault of
+# this one - it is compared right away so that the key names the right mutator
+ALWAYS_OBSERVED = HASH_FIRST + (
+    "copy.copy+mutate_original_observe_copy:", "copy.copy+mutate_copy_observe_original:edit_hull",
+    "process:merge_norm", "unmerge+normals+", "near_duplicate_vertex+")
+# compared first at every step (see Monitor.compare)
+ROOT_VALUES = ("face_normals", "vertex_normals")
 # reads that fall back to the global numpy RNG (contains_points retries a random direction)
 RANDOMIZED = ("q_contains", "q_signed_distance")
 
@@ -389,6 +406,10 @@ def perturbed_twin(f, run, style="noise"):
             # faces) then leave a sum above unitize's zero threshold, i.e. a unit vector of noise
             e = 1e-12 if style == "noise_carried" else 1e-15
             p = fn * (1.0 + e * rng.standard_normal(fn.shape)) + 0.1 * e * rng.standard_normal(fn.shape)
+            # a face WITHOUT a normal (zero row: repeated index, zero area) keeps none: a unit
+            # vector of noise there is not "rounding of the stored normal" (it hid a sliver that
+            # a merge had collapsed and that still carried its old normal - round 4, defect 3b)
+            p[np.linalg.norm(fn, axis=1) == 0] = 0.0
             nrm = np.linalg.norm(p, axis=1)
             ok = nrm > 0
             p[ok] /= nrm[ok].reshape((-1, 1))
@@ -439,6 +460,54 @@ def start_meshes(rng, tier):
         V, F = gm.invert(*gm.octahedron((3, 2, 1)))
         out.append(("inverted_octa", gm.to_trimesh(V, F)))
     return out
+
+
+def _edit_result(res, seen=None, depth=0):
+    """
+    Edit in place whatever a library call handed out, through the interfaces the library tracks
+    (`vertices *= 2` on geometry, in-place operators on arrays).  Refusals (read-only) are fine.
+    Returns the number of edits made.
+    """
+    import trimesh
+
+    if seen is None:
+        seen = set()
+    if res is None or id(res) in seen or depth > 3:
+        return 0
+    seen.add(id(res))
+    done = 0
+    if isinstance(res, trimesh.Scene):
+        for g in list(res.geometry.values()):
+            done += _edit_result(g, seen, depth + 1)
+        return done
+    if isinstance(res, (trimesh.Trimesh, trimesh.path.path.Path, trimesh.PointCloud)):
+        try:
+            v = res.vertices
+            if len(v):
+                v *= 2.0
+                done += 1
+        except Exception:
+            pass
+        return done
+    if isinstance(res, np.ndarray):
+        try:
+            if res.flags.writeable and res.size > 1 and res.dtype.kind == "f":
+                res *= 2.0
+                done += 1
+            elif res.flags.writeable and res.ndim >= 1 and len(res) > 1 and res.dtype.kind in "iu":
+                res[...] = res[::-1].copy()
+                done += 1
+        except Exception:
+            pass
+        return done
+    if hasattr(res, "__dataclass_fields__"):
+        res = [getattr(res, k, None) for k in res.__dataclass_fields__]
+    if isinstance(res, dict):
+        res = list(res.values())
+    if isinstance(res, (list, tuple)):
+        for x in res[:96]:
+            done += _edit_result(x, seen, depth + 1)
+    return done
 
 
 # ---------------------------------------------------------------------------
@@ -715,6 +784,189 @@ def mutators(rng):
     obs("projected", lambda m, r: m.projected([0, 0, 1]))
     obs("unwrap", lambda m, r: m.unwrap())
     obs("union_self", lambda m, r: m.union(m.copy().apply_translation([0.1, 0, 0])))
+    # ---- round 4 (hunter) -------------------------------------------------------------------
+    # process() with the merge options: vertices with DIFFERENT normals become one vertex
+    add("process:merge_norm", lambda m, r: m.process(merge_norm=True))
+    add("process:merge_norm+merge_tex", lambda m, r: m.process(merge_norm=True, merge_tex=True))
+    add("process:validate+merge_norm", lambda m, r: m.process(validate=True, merge_norm=True))
+
+    def split_normals_then(fn):
+        # self-contained (any start mesh): every face gets vertices of its own, the normals of
+        # that state are read, then the merging mutator runs
+        def f(m, r):
+            m.unmerge_vertices()
+            _ = m.face_normals, m.vertex_normals
+            fn(m)
+
+        return f
+
+    add("unmerge+normals+process:merge_norm", split_normals_then(lambda m: m.process(merge_norm=True)))
+    add("unmerge+normals+merge_vertices:merge_norm", split_normals_then(lambda m: m.merge_vertices(merge_norm=True)))
+
+    def near_duplicate_then(fn):
+        # a vertex 1e-9 from an existing one (tol.merge = 1e-8) and a sliver face on the pair: a
+        # valid triangle (cross product ~1e-9 >> tol.zero) until the merge puts both corners on
+        # one vertex.  The normals of the mesh WITH the sliver are read before `fn` runs.
+        def f(m, r):
+            V, F = np.array(m.vertices, dtype=np.float64), np.array(m.faces)
+            a, b, c = (int(x) for x in F[0])
+            d = V[c] - V[a]
+            n = float(np.linalg.norm(d))
+            if not np.isfinite(n) or n == 0.0:
+                return
+            m.vertices = np.vstack([V, V[a] + 1e-9 * max(1.0, float(np.abs(V[a]).max())) * d / n])
+            m.faces = np.vstack([F, [a, b, len(V)]])
+            _ = m.face_normals
+            fn(m)
+
+        return f
+
+    add("near_duplicate_vertex+normals+process", near_duplicate_then(lambda m: m.process()))
+    add("near_duplicate_vertex+normals+merge_vertices", near_duplicate_then(lambda m: m.merge_vertices()))
+    add("near_duplicate_vertex+normals+process:validate", near_duplicate_then(lambda m: m.process(validate=True)))
+
+    # copies that keep the cache: edit the ORIGINAL, observe the COPY (its arrays never change)
+    def observe_copy(edit):
+        def f(m, r):
+            c = _copy.copy(m)
+            edit(m)
+            _ = m.area, m.bounds
+            return c
+
+        return f
+
+    def roll_scale(m):
+        m.vertices[:] = np.roll(np.array(m.vertices), 3, axis=0) * 50.0
+
+    add("copy.copy+mutate_original_observe_copy:v_imul", observe_copy(lambda m: m.vertices.__imul__(50.0)))
+    add("copy.copy+mutate_original_observe_copy:v_roll", observe_copy(roll_scale))
+    add("copy.copy+mutate_original_observe_copy:f_roll",
+        observe_copy(lambda m: m.faces.__setitem__(Ellipsis, np.roll(np.array(m.faces), 1, axis=0))))
+    add("copy.copy+mutate_original_observe_copy:rigid", observe_copy(lambda m: m.apply_transform(rigid)))
+    add("copy.copy+mutate_original_observe_copy:invert", observe_copy(lambda m: m.invert()))
+    add("copy.copy+mutate_copy_observe_original:edit_hull", observe_original(lambda c: _edit_result(c.convex_hull)))
+
+    # the result of a library call (or of a read) is edited in place through the tracked
+    # interfaces: the mesh it came from must either be unaffected or notice
+    def obs_edit(name, fn):
+        def f(m, r):
+            try:
+                res = fn(m, r)
+            except Exception:
+                return
+            _ = m.area, m.area  # a read in between: the mesh has looked at its arrays since
+            _edit_result(res)
+
+        add("observer+edit_result:" + name, f)
+
+    obs_edit("section", lambda m, r: m.section(plane_origin=m.centroid, plane_normal=[0.3, 0.2, 0.9]))
+    obs_edit("slice_plane", lambda m, r: m.slice_plane(m.centroid, [0.1, 0.9, 0.2]))
+    obs_edit("submesh", lambda m, r: m.submesh([np.arange(max(1, len(m.faces) // 2))], append=True))
+    obs_edit("submesh_list", lambda m, r: m.submesh([np.arange(max(1, len(m.faces) // 2))], append=False))
+    obs_edit("split", lambda m, r: m.split(only_watertight=False))
+    obs_edit("subdivide", lambda m, r: m.subdivide())
+    obs_edit("sample", lambda m, r: m.sample(20, return_index=True))
+    obs_edit("outline", lambda m, r: m.outline())
+    obs_edit("outline_faces", lambda m, r: m.outline(face_ids=[0, 1]))
+    obs_edit("to_dict", lambda m, r: m.to_dict())
+    obs_edit("scene", lambda m, r: m.scene())
+    obs_edit("scene_dump", lambda m, r: m.scene().dump())
+    obs_edit("smoothed", lambda m, r: m.smoothed())
+    obs_edit("projected", lambda m, r: m.projected([0, 0, 1]))
+    obs_edit("unwrap", lambda m, r: m.unwrap())
+    obs_edit("register", lambda m, r: m.register(m.vertices[:5] + 0.01))
+    obs_edit("facets_boundary", lambda m, r: m.facets_boundary)
+    obs_edit("triangles", lambda m, r: (m.triangles, m.triangles_center, m.triangles_cross))
+    for _n in ("convex_hull", "bounding_box", "bounding_box_oriented", "bounding_sphere", "bounding_cylinder",
+               "bounding_primitive", "smooth_shaded", "mass_properties", "vertex_neighbors", "facets"):
+        obs_edit("read:" + _n, (lambda _n: lambda m, r: getattr(m, _n))(_n))
+    # (not the arrays themselves: editing those is a legitimate edit that drops the whole cache)
+    obs_edit("read:all_cached_values",
+             lambda m, r: [getattr(m, n_, None) for n_ in value_names() if n_ not in ("vertices", "faces")])
+
+    # in-place edits by numpy routes that do NOT pass the overridden methods of the tracked array
+    # (route names as in the C02 monitor); a read in between: the mesh has hashed its arrays
+    def bypass(name, edit, attr="vertices"):
+        def f(m, r):
+            _ = m.area, m.area
+            edit(getattr(m, attr))
+
+        add("inplace:bypass:%s:%s" % (attr[0], name), f)
+
+    bypass("copyto", lambda v: np.copyto(v, np.asarray(v) * 2.0))
+    bypass("ufunc_out", lambda v: np.multiply(np.asarray(v), 2.0, out=v))
+    bypass("ufunc_out_self", lambda v: np.add(v, [0.0, 0.5, 1.5], out=v))
+    bypass("clip_out", lambda v: v.clip(-0.75, 0.75, out=v))
+    bypass("dot_out", lambda v: np.dot(np.array(v), np.diag([1.0, 2.0, 3.0]), out=v))
+    bypass("putmask", lambda v: np.putmask(v, np.asarray(v) > 0, 3.5))
+    bypass("place", lambda v: np.place(v, np.asarray(v) > 0, 3.5))
+    bypass("ufunc_at", lambda v: np.add.at(v, [0], 5.0))
+    bypass("fill_diagonal", lambda v: np.fill_diagonal(v, 9.0))
+    bypass("flat_setitem", lambda v: v.flat.__setitem__(0, 7.25))
+    bypass("round_out", lambda v: np.round(np.asarray(v) * 1.37, 0, out=v))
+    bypass("copyto", lambda f_: np.copyto(f_, np.asarray(f_)[:, ::-1].copy()), attr="faces")
+    bypass("take_out", lambda f_: np.take(np.array(f_), [1, 2, 0], axis=1, out=f_), attr="faces")
+
+    # a view of the arrays taken BEFORE a read, written after it
+    def view_edit(name, take, edit, attr="vertices"):
+        def f(m, r):
+            view = take(getattr(m, attr))
+            _ = m.area, m.area, m.is_watertight
+            edit(view)
+
+        add("inplace:view:%s:%s" % (attr[0], name), f)
+
+    view_edit("row", lambda v: v[0], lambda w: w.__setitem__(Ellipsis, [5.0, 5.5, 6.0]))
+    view_edit("column", lambda v: v[:, 2], lambda w: w.__imul__(3.0))
+    view_edit("rows_slice", lambda v: v[1:3], lambda w: w.__iadd__(1.25))
+    view_edit("transpose", lambda v: v.T, lambda w: w.__setitem__((0, 0), 4.5))
+    view_edit("reshape", lambda v: v.reshape(-1), lambda w: w.__setitem__(1, -3.5))
+    view_edit("view_of_view", lambda v: v[:4][1], lambda w: w.__imul__(2.5))
+    view_edit("row", lambda f_: f_[0], lambda w: w.__setitem__(Ellipsis, int(w[0])), attr="faces")
+    view_edit("column", lambda f_: f_[:, 0], lambda w: w.__setitem__(Ellipsis, np.array(w)[::-1].copy()), attr="faces")
+
+    # the mesh was given an array somebody else keeps using (constructor with process=False,
+    # setters): edits through the other owner
+    def alias_ctor(kind):
+        def f(m, r):
+            v, f_ = np.array(m.vertices, dtype=np.float64), np.array(m.faces, dtype=np.int64)
+            if kind == "view_of_other_mesh":
+                n = trimesh.Trimesh(vertices=m.vertices[:], faces=m.faces[:], process=False)
+            else:
+                n = trimesh.Trimesh(vertices=v, faces=f_, process=False)
+            _ = n.area, n.volume, n.bounds, n.face_normals, n.is_watertight, n.area
+            if kind == "caller_vertices":
+                v *= 2.0
+            elif kind == "caller_faces":
+                f_[0] = f_[0][::-1].copy()
+            else:
+                m.vertices[:] = np.array(m.vertices) * 3.0  # a tracked edit of the OTHER mesh
+                _ = m.area
+            return n
+
+        return f
+
+    add("alias:ctor:caller_vertices", alias_ctor("caller_vertices"))
+    add("alias:ctor:caller_faces", alias_ctor("caller_faces"))
+    add("alias:ctor:view_of_other_mesh", alias_ctor("view_of_other_mesh"))
+
+    def alias_setter(kind):
+        def f(m, r):
+            if kind == "vertices":
+                v = np.array(m.vertices, dtype=np.float64)
+                m.vertices = v
+                _ = m.area, m.volume, m.bounds, m.face_normals, m.is_watertight, m.area
+                v[0] = [5.0, 5.5, 6.0]
+            else:
+                f_ = np.array(m.faces, dtype=np.int64)
+                m.faces = f_
+                _ = m.area, m.volume, m.bounds, m.face_normals, m.is_watertight, m.area
+                f_[0] = f_[0][::-1].copy()
+
+        return f
+
+    add("alias:setter:caller_vertices", alias_setter("vertices"))
+    add("alias:setter:caller_faces", alias_setter("faces"))
     return muts
 
 
@@ -782,7 +1034,37 @@ class Monitor:
         embree_ok = 0.5 <= sc["s"] <= 200.0
         bad = 0
         hits0 = self.probe.hits
+        if mut_name.startswith(HASH_FIRST):
+            # edits that the arrays' own bookkeeping may miss altogether: then EVERY cached value
+            # is stale at once.  The hash of the mesh is one of the compared values; it is looked
+            # at first and, when it is stale, reported alone (one key per route, not one per value)
+            run.count("hash_first_comparisons")
+            hm, hf = read(m, "q_hash", extra_m), read(f, "q_hash", extra_f)
+            if differ(hm, hf, "q_hash", sc):
+                also = []
+                for n in names:
+                    if n in extra_m or n == "q_hash" or len(also) >= 4:
+                        continue
+                    vf = read(f, n, extra_f)
+                    if not isinstance(vf, Raised) and differ(read(m, n, extra_m), vf, n, sc):
+                        also.append(n)
+                run.count("value_comparisons", 1 + len(also))
+                run.violation(
+                    "mut=%s stale=q_hash" % mut_name,
+                    "after `%s` the arrays of the mesh changed but its hash did not, so nothing cached is dropped; "
+                    "stale values read next: %s" % (mut_name, ", ".join(also) if also else "(none of the plain values)"),
+                    {"mesh": mesh_tag, "history": hist, "value": "q_hash", "also_stale": also},
+                )
+                self.post_hits = self.probe.hits - hits0
+                return 1
+        # the normals first: most other values are computed from them.  Only the FIRST stale
+        # value of a step is reported (the history ends at this step anyway; whatever else is
+        # stale at the same step is computed from the first or a consequence of the same cause),
+        # so one defect gives one key per mutator instead of one per derived value
+        names = [n for n in ROOT_VALUES if n in names] + [n for n in names if n not in ROOT_VALUES]
         for n in names:
+            if bad:
+                break
             if n in extra_m and n not in extra_f:
                 continue
             if n in SCALE_GATED and not embree_ok:
@@ -805,7 +1087,8 @@ class Monitor:
                 # consult the calibration twins only now (they cost as much as the fresh mesh):
                 # is this value stable under admissible rounding of the stored normals?
                 unstable = False
-                for ft, ex in twins():
+                # (the hash is exact: equal bytes hash equal, whatever the rounding of a normal)
+                for ft, ex in (twins() if n != "q_hash" else ()):
                     if n in extra_f and n not in ex:
                         continue
                     # a quarter of the tolerance: the mesh's value and the fresh one may each sit
@@ -920,7 +1203,7 @@ def run_history(mon, run, mesh_tag, base, steps, seed_for_mut):
     nontrivial = False
     for step in steps:
         reads, mname, mfn = step[:3]
-        observe = step[3] if len(step) > 3 else True
+        observe = (step[3] if len(step) > 3 else True) or mname.startswith(ALWAYS_OBSERVED)
         mon.do_reads(m, reads)
         keys_at_mutation = frozenset(m._cache.cache.keys())
         run.state("cache_keyset_at_mutation", hash(keys_at_mutation) & 0xFFFFFFFF)
@@ -1010,6 +1293,8 @@ def _workload(run, mon):
     # (1) read-set in {none, ALL} x every mutator; quick: meshes round-robin, thorough: every mesh
     for mi, (mname, mfn) in enumerate(muts):
         for ri, reads in enumerate(([], names_all)):
+            if not reads and mname.startswith(NEEDS_READS):
+                continue
             for si, (mesh_tag, base) in enumerate(meshes):
                 if run.tier == "quick" and si != (mi + ri) % len(meshes):
                     continue
@@ -1060,7 +1345,9 @@ def _workload(run, mon):
             "inplace:v_setitem_late", "inplace:v_iadd", "inplace:f_setitem_last", "reassign:vertices",
             "reassign:faces", "apply_transform:rigid", "apply_transform:mirror_rot", "apply_transform:aniso",
             "invert", "update_faces:random_bool", "update_vertices:drop_one", "merge_vertices",
-            "face_normals_set:correct", "density_set", "apply_scale:per_axis_negative")]
+            "face_normals_set:correct", "density_set", "apply_scale:per_axis_negative",
+            # what the first mutator left in the cache (carried normals ...) is edited in place
+            "observer+edit_result:read:all_cached_values")]
     else:
         first = [n for n, _ in muts]
         second = [n for n, _ in muts]
